@@ -43,6 +43,7 @@ class Opts:
         self.comp = True
         self.eq = False
         self.divmod = False
+        self.comp_one_in = 6        # frequency of computed-key reads (whole-container dependencies)
         self.math_builtins = True   # floor / ceil / trunc (print as bare names: excluded where text is re-evaluated)
         self.allow_raise = True     # keep a raising op as the last op (else drop it)
         self.weights = None
@@ -121,7 +122,7 @@ class Gen:
         weighted = cands + [k for k in cands if k in produced] * 3     # favour chains
         tg = G.TermGen([W.ast_loc(k) for k in weighted], [], fn, comp, lits=hist_numbers, ops=ops,
                        builtins=builtins, unary=["-", "+"], allow_eq=self.o.eq,
-                       allow_divmod=self.o.divmod)
+                       allow_divmod=self.o.divmod, comp_one_in=self.o.comp_one_in)
         d = self.draw(st.integers(1, self.o.depth))
         ast = tg.term(self.draw, d)
         if self.o.risky_ops and self.draw(st.integers(0, 9)) == 0:
